@@ -69,7 +69,10 @@ def text_of(m, name):
     for k, reg in enumerate(m["regions"]):
         if k:
             out.append("--")
-        out.append("[*] -> %s" % reg[0])
+        # initial and terminate lines are written with arrows of 1-4 dashes and 1-3 blanks too (seeded batch 13, C14d)
+        long_arrows = m.get("seed") != 0.5
+        out.append("[*]%s%s>%s%s" % (" " * rng.randint(1, 3), "-" * rng.randint(1, 4), " " * rng.randint(1, 3), reg[0]) if long_arrows
+                   else "[*] -> %s" % reg[0])
         rows = [r for r in m["rows"] if r["src"] in reg]
         lines = []
         for r in rows:
@@ -90,7 +93,9 @@ def text_of(m, name):
         others = []
         for s in reg:
             if s in m["term"]:
-                others.append("%s -> [*]" % s)
+                others.append("%s %s> [*]" % (s, "-" * m["term_arrow"]) if m.get("term_arrow") else
+                              "%s%s%s>%s[*]" % (s, " " * rng.randint(1, 3), "-" * rng.randint(1, 4), " " * rng.randint(1, 3)) if long_arrows
+                              else "%s -> [*]" % s)
             for a, g in m["entries"].get(s, []):
                 others.append("%s : entry %s%s" % (s, a, " [%s]" % g if g else ""))
             for a, g in m["exits"].get(s, []):
@@ -121,6 +126,9 @@ PINNED = [
          exits={"A": [("on_entry_done", "g1")]}, flags={"B": ["F1"]}), "PIN_F26_keyword_in_name"),
     (_pm([["A", "B"]], [("A", "B", "e1", None, None), ("B", "A", "e2", None, None)], entries={"A": [("act1", None)]},
          flags={"A": ["F2"]}), "PIN_F27_initial_state_with_lines"),
+    (dict(_pm([["Run", "Done"], ["Idle", "Busy"]], [("Run", "Done", "e1", "act1", None), ("Idle", "Busy", "e2", "act2", None),
+                                                    ("Busy", "Idle", "e2", None, None)], term=["Done"]), term_arrow=3),
+     "PIN_long_arrow_terminate"),
 ]
 
 def reference(m, script):
